@@ -243,8 +243,18 @@ class _Val:
         self.v = v
 
 
+_RUST_STR_CACHE = {}
+
+
 def rust_str(s):
     """Decode the debug form of a string literal ("..." with Rust escapes)."""
+    r = _RUST_STR_CACHE.get(s)
+    if r is None:
+        r = _RUST_STR_CACHE[s] = _rust_str(s)
+    return r
+
+
+def _rust_str(s):
     s = s.strip()
     if s.startswith('const '):
         s = s[6:]
@@ -353,6 +363,11 @@ def rust_debug_str(x):
     return ''.join(out)
 
 
+_OPS = {'Add::add': 'Add', 'Sub::sub': 'Sub', 'Mul::mul': 'Mul', 'Div::div': 'Div', 'Rem::rem': 'Rem', 'BitAnd::bitand': 'BitAnd',
+        'BitOr::bitor': 'BitOr', 'BitXor::bitxor': 'BitXor', 'Shl::shl': 'Shl', 'Shr::shr': 'Shr'}
+_ASSIGN = {'AddAssign::add_assign': 'Add', 'SubAssign::sub_assign': 'Sub', 'MulAssign::mul_assign': 'Mul', 'DivAssign::div_assign': 'Div',
+           'RemAssign::rem_assign': 'Rem', 'BitOrAssign::bitor_assign': 'BitOr', 'BitAndAssign::bitand_assign': 'BitAnd', 'BitXorAssign::bitxor_assign': 'BitXor'}
+
 CHAR_PRED = {
     'is_whitespace': lambda c: c.isspace() or c in '\u0085',
     'is_alphabetic': lambda c: c.isalpha(),
@@ -378,6 +393,7 @@ IDENTITY = {'Deref::deref', 'DerefMut::deref_mut', 'String::as_str', 'Into::into
 
 class VM:
     limit_hits = 0      # per process: how many top-level runs exhausted their step budget
+    _extra_names = None
 
     def __init__(self, facts, env=None, max_steps=400000, local_prefixes=('word_to_digit', 'lang', 'digit_string', 'tokenizer', 'error', '<')):
         self.facts = facts
@@ -881,9 +897,20 @@ class VM:
         d = self.deref
         a0 = d(args[0]) if args else None
         last = name.split('::')[-1]
-        r_ = self._std_extra(name, callee, args, t, a0, last)
-        if r_ is not NotImplemented:
-            return r_
+        # _std_extra only ever acts on the method names it mentions: skip it (it is the hottest path) for every other call
+        toks_ = VM._extra_names
+        if toks_ is None:
+            import inspect
+            src_ = inspect.getsource(VM._std_extra)
+            toks_ = set()
+            for q_ in re.findall(r"'([A-Za-z_][A-Za-z0-9_:<> ]*)'", src_):
+                segs_ = q_.split('::')
+                toks_.update((q_, segs_[-1], '::'.join(segs_[-2:])))
+            VM._extra_names = toks_
+        if last in toks_ or name in toks_ or (callee or '').startswith('core::num::<impl') or name.startswith(('Formatter::', 'Ordering::')):
+            r_ = self._std_extra(name, callee, args, t, a0, last)
+            if r_ is not NotImplemented:
+                return r_
         if name in IDENTITY:
             if name == 'IntoIterator::into_iter' or name == 'Iterator::peekable':
                 if isinstance(a0, (Seq, Slice)):
@@ -2151,7 +2178,7 @@ class VM:
                     out.extend(x.items)
                 return Seq(out)
         # --- maps and sets
-        m_c = re.match(r'^(?:std|alloc)::collections::(?:hash::(map|set)::Hash(?:Map|Set)|btree::(map|set)::BTree(?:Map|Set))(?:::<.*>|<.*>)?::(\w+)$', callee)
+        m_c = None if 'collections::' not in callee else re.match(r'^(?:std|alloc)::collections::(?:hash::(map|set)::Hash(?:Map|Set)|btree::(map|set)::BTree(?:Map|Set))(?:::<.*>|<.*>)?::(\w+)$', callee)
         if m_c and last in ('new', 'with_capacity', 'from', 'default') and not isinstance(a0, Map):
             mp = Map(sorted_=m_c.group(2) is not None, is_set=(m_c.group(1) or m_c.group(2)) == 'set')
             if last == 'from':
@@ -2270,8 +2297,7 @@ class VM:
             a0.items.extend(self._as_iter(args[1]).drain())
             return ()
         # operator traits called as functions (`a + &b` on references, String + &str)
-        OPS = {'Add::add': 'Add', 'Sub::sub': 'Sub', 'Mul::mul': 'Mul', 'Div::div': 'Div', 'Rem::rem': 'Rem', 'BitAnd::bitand': 'BitAnd',
-               'BitOr::bitor': 'BitOr', 'BitXor::bitxor': 'BitXor', 'Shl::shl': 'Shl', 'Shr::shr': 'Shr'}
+        OPS = _OPS
         if name in OPS and len(args) == 2:
             a, b = d(args[0]), d(args[1])
             if isinstance(a, str) and isinstance(b, str) and name == 'Add::add':
@@ -2286,8 +2312,7 @@ class VM:
                         return wrap_int(r, ty)
                     raise Panic('attempt to %s with overflow' % last)
                 return r
-        ASSIGN = {'AddAssign::add_assign': 'Add', 'SubAssign::sub_assign': 'Sub', 'MulAssign::mul_assign': 'Mul', 'DivAssign::div_assign': 'Div',
-                  'RemAssign::rem_assign': 'Rem', 'BitOrAssign::bitor_assign': 'BitOr', 'BitAndAssign::bitand_assign': 'BitAnd', 'BitXorAssign::bitxor_assign': 'BitXor'}
+        ASSIGN = _ASSIGN
         if name in ASSIGN and len(args) == 2 and isinstance(a0, (int, float)) and not isinstance(a0, bool) and isinstance(d(args[1]), (int, float)):
             m_ = re.match(r'^<&?(?:mut )?(\w+) as ', callee)
             r = self.binop(ASSIGN[name], a0, d(args[1]))
@@ -2305,7 +2330,7 @@ class VM:
                 return (rg[1] - a0) if rg and rg[0] == 0 else ~a0
             return -a0
         # integer methods, typed by the impl block named in the callee: core::num::<impl u8>::checked_add
-        m_ = re.match(r'^core::num::<impl (\w+)>::(\w+)$', callee)
+        m_ = re.match(r'^core::num::<impl (\w+)>::(\w+)$', callee) if callee.startswith('core::num::<impl') else None
         if m_ and isinstance(a0, int) and not isinstance(a0, bool) and int_range(m_.group(1)):
             ty, meth = m_.group(1), m_.group(2)
             lo, hi = int_range(ty)
